@@ -71,6 +71,7 @@ type Event struct {
 type Callee struct {
 	Defaults map[int]Ret // per slot id (static default chosen by the generator)
 	Plan     map[int]Ret // per dynamic invocation index (fault plan); wins over Defaults
+	PlanByID map[int]Ret // per slot id (every invocation of that slot); wins over Defaults
 	Trace    []Event
 	Out      *bytes.Buffer
 	Limit    int // max invocations (runaway guard); 0 = 100000
@@ -99,6 +100,9 @@ func (c *Callee) fn(env *object.Env, kwargs *object.PanObj, args ...object.PanOb
 	}
 	c.Trace = append(c.Trace, ev)
 	r, ok := c.Plan[seq]
+	if !ok {
+		r, ok = c.PlanByID[id]
+	}
 	if !ok {
 		r, ok = c.Defaults[id]
 		if !ok {
